@@ -8,8 +8,8 @@
 //    opened or created and is COUNTED (vio_dir.unknownPaths; harnesses assert that it stays 0 - nothing is silently dropped).
 //  * open()/remove() resolve the path and delegate to vio_open3()/vio_remove() with the one-letter name of the file ('A'+i), so
 //    operation counting, the failing operation and the crash point are exactly those of vio_model.h.
-//  * opendir/readdir/closedir: ".", "..", then the existing entries in table order (one directory stream at a time; the real
-//    readdir order is unspecified - other orders are outside the claim); lstat: regular file iff the entry exists, "T" is a
+//  * opendir/readdir/closedir: ".", "..", then the existing entries in table order (VIO_DIR_ORDER=1: reverse table order; one
+//    directory stream at a time; the real readdir order is unspecified - other orders are outside the claim); lstat: regular file iff the entry exists, "T" is a
 //    directory; mkdir/rmdir create / remove "T" (rmdir refuses a non-empty directory).
 //  * CONTRACT for crash / durability (part of every claim that uses it): creating, unlinking, truncating a file and mkdir/rmdir
 //    are durable at once (the most favourable assumption for the code under test: real file systems may lose or reorder
@@ -27,6 +27,9 @@
 #include <dirent.h>
 #include <errno.h>
 #include <string>
+#ifndef VIO_DIR_ORDER
+#define VIO_DIR_ORDER 0
+#endif
 static_assert(NFILES >= 7, "the token-directory model needs 7 model files");
 enum { VD_GEN = 0, VD_TOKOBJ = 1, VD_TOKLOCK = 2, VD_AOBJ = 3, VD_ALOCK = 4, VD_BOBJ = 5, VD_BLOCK = 6, VD_N = 7 };
 static const char* const vio_dir_names[VD_N] = { "generation", "token.object", "token.lock", "a.object", "a.lock", "b.object", "b.lock" };
@@ -106,10 +109,12 @@ struct dirent* vio_dir_readdir(DIR* d)
 	(void)d;
 	if (vio_dir.cursor == -2) { vio_dir.cursor = -1; vio_dirent.d_ino = 1; vio_dirent.d_type = DT_DIR; vio_dirent.d_name[0] = '.'; vio_dirent.d_name[1] = 0; return &vio_dirent; }
 	if (vio_dir.cursor == -1) { vio_dir.cursor = 0; vio_dirent.d_ino = 1; vio_dirent.d_type = DT_DIR; vio_dirent.d_name[0] = '.'; vio_dirent.d_name[1] = '.'; vio_dirent.d_name[2] = 0; return &vio_dirent; }
-	for (int i = 0; i < VD_N; i++)
+	for (int j = 0; j < VD_N; j++)
 	{
-		if (i < vio_dir.cursor || !vio.f[i].exists) continue;
-		vio_dir.cursor = i + 1; vio_dirent.d_ino = 2 + i; vio_dirent.d_type = DT_REG;
+		if (j < vio_dir.cursor) continue;
+		int i = VIO_DIR_ORDER ? VD_N - 1 - j : j;                            // VIO_DIR_ORDER=1: the entries in reverse table order
+		if (!vio.f[i].exists) continue;
+		vio_dir.cursor = j + 1; vio_dirent.d_ino = 2 + i; vio_dirent.d_type = DT_REG;
 		const char* n = vio_dir_names[i];
 		for (int k = 0; k < 16; k++) { vio_dirent.d_name[k] = n[k]; if (n[k] == 0) break; }
 		return &vio_dirent;
